@@ -10,6 +10,8 @@ import (
 	"os/exec"
 	"path/filepath"
 	"regexp"
+	"runtime/debug"
+	"runtime/pprof"
 	"sort"
 	"strconv"
 	"strings"
@@ -24,6 +26,7 @@ var verifDir = "/verif"
 var repoDir = "/repo"
 
 func main() {
+	debug.SetGCPercent(200)
 	if v := os.Getenv("VERIF_DIR"); v != "" {
 		verifDir = v
 	}
@@ -121,6 +124,7 @@ func cmdCheck(args []string) int {
 	verbose := fs.Bool("v", false, "verbose")
 	noReplay := fs.Bool("noreplay", false, "skip native replay (debug only; never a pass)")
 	noEvidence := fs.Bool("noevidence", false, "do not write the evidence file (debug)")
+	cpuprof := fs.String("cpuprofile", "", "write a CPU profile (debug)")
 	if len(args) < 1 {
 		fmt.Println("check needs a property id")
 		return 2
@@ -135,6 +139,11 @@ func cmdCheck(args []string) int {
 	}
 	seed, _ := strconv.Atoi(os.Getenv("VERIF_SEED"))
 	t0 := time.Now()
+	if *cpuprof != "" {
+		f, _ := os.Create(*cpuprof)
+		pprof.StartCPUProfile(f)
+		defer pprof.StopCPUProfile()
+	}
 
 	srcs, err := collect(id, *tier)
 	if err != nil {
